@@ -240,18 +240,10 @@ fn gen_recs(r: &mut Rng, n: usize, k: usize, maxlen: usize) -> Vec<Vec<u8>> {
 
 fn shrink_cnt(c: &CntCase) -> Vec<CntCase> {
     let mut out = Vec::new();
-    for i in 0..c.recs.len() {
+    for r in shrink_records(&c.recs) {
         let mut d = c.clone();
-        d.recs.remove(i);
+        d.recs = r;
         out.push(d);
-    }
-    for i in 0..c.recs.len() {
-        if c.recs[i].len() > 1 {
-            let mut d = c.clone();
-            let h = d.recs[i].len() / 2;
-            d.recs[i].truncate(h);
-            out.push(d);
-        }
     }
     if c.threads > 1 {
         let mut d = c.clone();
